@@ -76,6 +76,9 @@ use crate::{
 
 mod conversion;
 use conversion::NextSubmission;
+#[cfg(all(test, feature = "verif"))]
+#[path = "/verif/harness/relayer/conv.rs"]
+pub(super) mod verif_conv;
 
 /// A simple, passive object to allow the Celestia fee to be returned along with the
 /// `StartedSubmission` state when attempting to submit.
